@@ -59,6 +59,9 @@ KINDS = {
     "a_ptr_2": "uint8 *{n}[2];",
     "a_f32_2": "float {n}[2];",
     "a2d": "uint8 {n}[2][3];",
+    "a2d_char": "char {n}[2][3];",
+    "a2d_wchar": "wchar {n}[2][2];",
+    "a2d_i24": "int24 {n}[2][2];",
     "a_inner_2": "inner {n}[2];",
     "d_u16": "uint8 {n}_n; uint16 {n}[{n}_n];",
     "d_char": "uint8 {n}_n; char {n}[{n}_n];",
